@@ -367,6 +367,7 @@ func (c *cs) oracle(s rkit.SignEvent, oc opCtx) {
 				c.postSigned[k]++
 				if c.postSigned[k] > 1 {
 					if !p.runStored {
+						// regression signature of the defect fixed by c50569811
 						c.violate("C03/decided-object-signed-again:running-instance-evicted-from-controller-container",
 							fmt.Sprintf("%s: the object decided at height %d was signed %d times: the running instance had been pushed out of the controller's %d-slot instance container by decided messages of later heights, so every further decided message for the height is a 'first' decision again and the runner's own instance object is never marked decided",
 								who, p.runH, c.postSigned[k], qbftcontroller.InstanceContainerDefaultCapacity))
@@ -796,6 +797,15 @@ func genCase(s *state, r *hx.Rng) {
 				for k := 0; k < 1+r.Intn(3); k++ {
 					evs = append(evs, ev{t + 0.5 + float64(k)/100, fmt.Sprintf("decided d=%d dh=0 val=0 signers=%d", di, int(rkit.ShareFor(rkit.KeySet(n), 1).Quorum)+k%2)})
 				}
+			case 7: // eviction, then an invalid value for the running height, then valid certificates (twice, two values)
+				t := at(float64(r.Pick(15, 40)) / 100)
+				for k := 1; k <= 2; k++ {
+					evs = append(evs, ev{t + float64(k)/100, fmt.Sprintf("decided d=%d dh=%d val=0", di, k)})
+				}
+				evs = append(evs, ev{t + 0.3, fmt.Sprintf("decided d=%d dh=0 val=%d", di, r.Pick(2, 3))})
+				evs = append(evs, ev{t + 0.4, fmt.Sprintf("decided d=%d dh=0 val=%d", di, r.Pick(0, 1))})
+				evs = append(evs, ev{t + 0.5, fmt.Sprintf("decided d=%d dh=0 val=%d", di, r.Pick(0, 1))})
+				evs = append(evs, ev{t + 0.6, fmt.Sprintf("decided d=%d dh=0 val=0", di)})
 			case 3: // invalid decisions
 				evs = append(evs, ev{at(0.2), fmt.Sprintf("decided d=%d dh=0 val=%d", di, r.Pick(2, 3))})
 				evs = append(evs, ev{at(0.25), fmt.Sprintf("decided d=%d dh=0 val=0 badcert=1", di)})
